@@ -78,6 +78,14 @@ Section Outcome.
     - inversion H; subst. eapply randint_codes; eauto.
   Qed.
 
+  Lemma pick2_codes : forall l s c, pick2 S next l s = Err c -> code123 c.
+  Proof.
+    intros l s c H. unfold pick2 in H.
+    destruct (randint S next 0 (Z.max (zlen l - 2) 0) s) as [[k s']|c'] eqn:E.
+    - destruct (zget l k); [discriminate | inversion H; unfold code123; lia].
+    - inversion H; subst. eapply randint_codes; eauto.
+  Qed.
+
   Lemma attempt_codes : forall lrs nbrs st idx stuck s c,
     attempt_bottleneck_fix S next lrs nbrs st idx stuck s = Err c -> code123 c.
   Proof.
@@ -92,6 +100,7 @@ Section Outcome.
           | eapply non_nb_turns_codes; eassumption
           | eapply randint_codes; eassumption
           | eapply pick_codes; eassumption
+          | eapply pick2_codes; eassumption
           | eapply zswap_codes; eassumption
           | eapply add_more_turns_codes; eassumption
           | match goal with Hq : (if ?b then _ else _) = Err _ |- _ => destruct b; eapply pick_codes; eassumption end
